@@ -124,7 +124,7 @@ def install_get_nodes_loops(h, prefix='C05/'):
 
   def havoc0(fr):
     fr.gen_out.havoc(ip, 'out')
-  ip.loops[(Q, 0)] = LoopSpec('for node in self.nodes', inv0, havoc0, locals_modified=['node'])
+  ip.loops[(Q, 0)] = LoopSpec('for node in self.nodes', inv0, havoc0, locals_modified=[])
 
   # loop 1: the walk around the ring
   def visited(fr, j):
@@ -180,7 +180,7 @@ def install_get_nodes_loops(h, prefix='C05/'):
     fr.ghost['where'] = z3.If(z3.Length(out) > n0, z3.Store(fr.ghost['where'], out[n0], n0), fr.ghost['where'])
   ip.loops[(Q, 1)] = LoopSpec('while nodes_len < ', inv1, havoc1,
                               ghost_pre=ghost_pre, ghost_step=ghost_step,
-                              locals_modified=['next_entry', 'position', 'next_node', 'index', 'nodes_len'])
+                              locals_modified=['index', 'nodes_len'])
   h.where_of = lambda fr: fr.ghost.get('where')
 
 
